@@ -178,13 +178,21 @@ def check_create_index(rep, prog, fn):
         # arm selection: the zero counter is used when e is NOT in the forest set
         lowstore = counters[zero[0]][0]
 
+        unsorted = []
+
         def atomize(leaf):
             m = ex.membership(leaf)
             if m is not None and forest_set(prog, fn, ex.var_of(m[0])):
+                s_ = leaf.strip_all()
+                if any(x.k == 'CallExpr' and x.callee and x.callee['g'] == 'std::binary_search' for x in [s_] + list(s_.walk())) and \
+                        not ex.sorted_before(fn, ex.var_of(m[0]), leaf):
+                    unsorted.append(leaf)
                 f = ex.f_atom('in_forest')
                 return f if m[2] else ex.f_not(f)
             return None
         pc = guards_formula(cfg, lowstore, atomize)
+        if unsorted:
+            problems.append('forest membership is tested with std::binary_search on a sequence that is not sorted before the numbering pass')
         atoms = ex.f_atoms(pc)
         if 'in_forest' not in atoms:
             if ex.opaque_nodes(fn, pc):
@@ -507,6 +515,9 @@ def run_on(rep, prog):
     check_forest_emission(rep, prog)
     c17.check_copy_ops(rep, prog, CLS, 'R16d')
     c04.check_forest_order(rep, prog)
+    from . import c07
+    c07.r07g(rep, prog, only_files=('forestindex', 'spanning_forest'))
+    c07.r07h(rep, prog, only_files=('forestindex', 'spanning_forest'))
     return n
 
 
@@ -517,6 +528,8 @@ def run(rep, tier):
     rep.rule('R16d', 'copy operations copy every member', floor=2)
     rep.rule('R16f', 'spanning_forest emission sites are guarded and paired with the unreached/queue bookkeeping', floor=1)
     rep.rule('R16e', 'index order is address-free', floor=1)
+    rep.rule('R07h', 'sizes used while building the index do not wrap for the empty graph (ForestIndex of the empty graph: c = 0, dimension 0)', floor=0)
+    rep.rule('R07g', 'the index construction keeps no function-local static state (each ForestIndex is built from its own graph only)', floor=0)
     tus = [env.witness_tu()]
     if tier == 'thorough':
         tus += [t for t in env.repo_tus() if 'forest' in os.path.basename(t) or 'mcb' in os.path.basename(t)]
@@ -532,7 +545,7 @@ def run(rep, tier):
         pp = env.extract([pos], 'full', ('first:-I' + os.path.join(env.WITNESS, 'positive', 'broken_include2'),))[pos]
         prep = type(rep)(rep.prop, rep.tier)
         run_on(prep, pp)
-        for r in ('R16a', 'R16b', 'R16c', 'R16d', 'R16e', 'R16f'):
+        for r in ('R16a', 'R16b', 'R16c', 'R16d', 'R16e', 'R16f', 'R07g'):
             rep.positive(r, 'witness/positive/c16_forest.cc', any(i.status == 'violation' and i.rule == r for i in prep.instances.values()))
     except env.AnalysisBroken as e:
         rep.analysis_broken('positive example c16_forest.cc does not parse: ' + str(e)[:300])
